@@ -1099,6 +1099,66 @@ def _replaced_flag(b, m):
     return None
 
 
+def _use_once_handle(ctx, v, sup, ps, sn):
+    b = sup.body_of(sn)
+    t_sn = b.blocks[sn[1]]["term"]
+    if t_sn["k"] != "call" or t_sn["dest"]["pr"]:
+        return False
+    hl = t_sn["dest"]["l"]
+    opt = None
+    stores = []
+    for bi, blk in enumerate(b.blocks):
+        for s_ in blk["stmts"]:
+            if s_["k"] == "assign" and not s_["p"]["pr"] and s_["rv"]["k"] == "aggregate" and s_["rv"].get("variant") == "Some" and b.local_ty(s_["p"]["l"]).startswith("std::option::Option<std::io::Stdin"):
+                src = trace(b, s_["rv"]["ops"][0]) if s_["rv"]["ops"] else None
+                if src is not None and src.origin and src.origin[0] == "call" and src.origin[2] is t_sn and all(x[0] == "use" for x in src.steps):
+                    opt = s_["p"]["l"]
+                stores.append((s_["p"]["l"], (sn[0], bi)))
+    if opt is None:
+        return False
+    takes = [(sn[0], bb) for bb, t in b.calls() if (fn_of(t) or {}).get("def") == "std::option::Option::<T>::take" and t["args"] and _referent(b, t["args"][0]) == opt]
+    if len(takes) != 1:
+        return False
+    tn = takes[0]
+    # the handle is used for nothing else: the Option is only tested, taken and dropped
+    other = []
+    for bb, t in b.calls():
+        f = fn_of(t) or {}
+        for a in t["args"]:
+            if is_place(a) and (_referent(b, a) == opt or (not a["p"]["pr"] and a["p"]["l"] == opt)) and f.get("def") not in ("std::option::Option::<T>::take", "std::option::Option::<T>::is_none", "std::option::Option::<T>::is_some"):
+                other.append(f.get("def"))
+    done = False
+    for gn in sorted(v.nodes, key=str):
+        if gn[0] != sn[0]:
+            continue
+        t = b.blocks[gn[1]]["term"]
+        if t["k"] != "switch":
+            continue
+        tr = trace(b, t["discr"])
+        zero = [x for vv, x in t["targets"] if vv == 0]
+        clear_edge = set_edge = None
+        if tr.origin and tr.origin[0] == "call" and (fn_of(tr.origin[2]) or {}).get("def") in ("std::option::Option::<T>::is_none", "std::option::Option::<T>::is_some") and tr.origin[2]["args"] and _referent(b, tr.origin[2]["args"][0]) == opt and zero:
+            e_false = (gn, 0, (gn[0], zero[0]))
+            e_true = (gn, "otherwise", (gn[0], t["otherwise"]))
+            if fn_of(tr.origin[2])["name"] == "is_none":
+                clear_edge, set_edge = e_false, e_true
+            else:
+                clear_edge, set_edge = e_true, e_false
+        if clear_edge is None or not ps.edge_dominates(clear_edge[0], clear_edge[1], clear_edge[2], tn):
+            continue
+        done = True
+        oname = b.local_name(opt) or f"_{opt}"
+        ctx.ob("guard-dominates-stdin", True, v.site(gn), f"the one stdin handle lives in `{oname}: Option<Stdin>`; it is taken out only on the edge where it is still there (use-once handle)")
+        r, terms, ok = _only_exit(v, ("edge", set_edge), 1)
+        ctx.ob("second-use-exits-1", ok, v.site(gn), "second use of stdin ends in exit(1)" if ok else "second use of stdin is not refused")
+        ctx.ob("flag-set-before-read", not other, v.site(tn), f"standard input is read only through the handle `{oname}.take()` hands out (the Option is empty from then on)" if not other else f"`{oname}` is also used by {other}: the handle can be reached without taking it")
+        inside = [n_ for l_, n_ in stores if l_ == opt and sup.on_cycle(n_)]
+        ctx.ob("stdin-not-reachable-again", not inside and not sup.on_cycle(sn), v.site(sn), "the handle is created once, outside the input loop, and never put back" if not inside and not sup.on_cycle(sn) else f"`{oname}` is refilled inside the input loop")
+        ctx.ob("flag-cleared-only-before-loop", not inside, site(b), f"`{oname} = Some(..)` only outside the input loop" if not inside else f"`{oname}` is refilled inside the input loop")
+        break
+    return done
+
+
 @rule("R14.3", 5, "standard input is read at most once: the only stdin() site is dominated by a set-once bool guard whose set edge exits 1", ["C14", "C15", "C13"])
 def r14_3(ctx):
     v = cliview.view(ctx.facts)
@@ -1224,6 +1284,11 @@ def r14_3(ctx):
                     ws = flagstate.writes(binc, fl)
                     cl_ok = all(role == flagstate.SET for _, _, role, _ in ws) and not flagstate.mut_borrow_escapes(binc, fl) and bool(ws)
                     ctx.ob("flag-cleared-only-before-loop", cl_ok, adt_path, f"`{gname}` is only ever set after construction" if cl_ok else f"`{gname}` can be reset")
+    if not found:
+        # idiom (iv): the handle itself is the token. `let mut stdin = Some(io::stdin())` once, outside the loop; the
+        # input's turn does `if stdin.is_none() { bail }` .. `stdin.take()` and reads through what it took: after the
+        # first turn there is no handle left to read from
+        found = _use_once_handle(ctx, v, sup, ps, sn)
     if not found:
         ctx.ob("guard-dominates-stdin", False, v.site(sn), "no set-once bool guard dominates the stdin() site")
     # "-" -> stdin; no file arguments -> one stdin input
